@@ -105,6 +105,14 @@ def main():
         del log[:]
         del escaped[:]
         raw = LINKED if job["schema"] == "linked" else None
+        if job["schema"] == "flat-err":
+            # two healthy operations and one for which `run_test` itself reports an error in the middle of its scenario
+            # (a required parameter nothing satisfies): faults after that point meet a scenario that already carries an error event
+            # (the error-carrying operation comes first: the first call of every site then falls into its scenario)
+            raw = {**E.RAW, "paths": {"/bad": {"get": {"parameters": [{"name": "q", "in": "query", "required": True,
+                                                                       "schema": {"type": "integer", "minimum": 5, "maximum": 1}}],
+                                                       "responses": {"200": {"description": "ok"}}}},
+                                      **{k: v for k, v in list(E.RAW["paths"].items())[:2]}}}
         schema = E.load_schema(srv.url, n_ops=None if raw else 2, raw=raw)
         cfg = E.engine_config(phases=[PhaseName[p] for p in job["phases"]], workers=job["workers"],
                               max_examples=job["max_examples"], stateful_step_count=job.get("steps", 3))
